@@ -8,8 +8,7 @@
    directory of the checksum (job / result / error file, each absent | being written | complete), the two
    SoftFileLock markers with their owner, and the ghost counter of body executions.  Environment steps:
    the body raises, an exception is raised at a checkpoint, a hook raises, the open file grows to n
-   bytes, the process dies.  Defects of the code are kept (no cleanup outside the try, flag set after
-   record_error, ...).  No proofs here. *)
+   bytes, the process dies.  Defects of the code are kept (no cleanup outside the try, ...).  No proofs here. *)
 From Pydra Require Import Base.Prelude.
 Local Open Scope nat_scope.
 
@@ -57,10 +56,10 @@ Inductive pcT :=
 | BodyIn      (* job.body_enter *)
 | BodyOut     (* job.body_left *)
 | OutsOk      (* job.outputs_collected *)
-| Err0        (* exception caught by "except Exception" *)
+| Err0        (* exception caught by "except Exception", result.errored set *)
 | Err1 | Err2 | Err3 | Err4   (* error.before / opened / dumped / after *)
 | ErrRec      (* job.error_recorded *)
-| Fin0        (* finally block entered from the handler with result.errored not yet set *)
+| Fin0        (* finally block entered because the handler itself raised *)
 | Fin1        (* job.post_hook_done *)
 | Fin2        (* job.audit_finalised *)
 | Fin3        (* job.result_saved *)
@@ -278,7 +277,7 @@ Section Proto.
     match region_at (pc q) with
     | ROut => (set_ret (Some Raised) (set_pc Done q), g2)
     | RPre => (set_dirty (set_pc ExcHold q), g2)
-    | RTry => (set_pc Err0 q, g2)
+    | RTry => (set_rerr true (set_pc Err0 q), g2)
     | RHandler => (set_raised true (set_pc Fin0 q), g2)
     | RFinally => (set_dirty (set_pc ExcHold q), g2)
     end.
@@ -333,9 +332,9 @@ Section Proto.
     (* ---- try: audit.monitor(); task._run; outputs *)
     | AudSt, ABodyEnter => Some (inc_execs (set_pc BodyIn q), g)
     | BodyIn, ABodyLeft => Some (set_pc BodyOut q, inc_runs g)
-    | BodyIn, ABodyRaise => Some (set_pc Err0 q, inc_runs g)
+    | BodyIn, ABodyRaise => Some (set_rerr true (set_pc Err0 q), inc_runs g)
     | BodyOut, AOutputs => Some (set_rout (Some bv) (set_pc OutsOk q), g)
-    (* ---- except Exception: record_error(...); result.errored = True; raise *)
+    (* ---- except Exception: result.errored = True (first statement of the handler); record_error(...); raise *)
     | Err0, AErrBefore => go Err1 q g
     | Err1, AErrOpened => Some (set_pc Err2 q, set_errf (Writing tt 0) g)
     | Err2, AErrDumped => go Err3 q g
@@ -343,9 +342,9 @@ Section Proto.
     | Err4, AErrRecorded => go ErrRec q g
     (* ---- finally: hooks.post_run_task; finalize_audit; save; unlink info; chdir(cwd) *)
     | OutsOk, APostHook | Fin0, APostHook => Some (inc_post (set_pc Fin1 q), g)
-    | ErrRec, APostHook => Some (inc_post (set_raised true (set_rerr true (set_pc Fin1 q))), g)
+    | ErrRec, APostHook => Some (inc_post (set_raised true (set_pc Fin1 q)), g)
     | OutsOk, APostHookRaise | Fin0, APostHookRaise => Some (set_dirty (inc_post (set_pc ExcHold q)), g)
-    | ErrRec, APostHookRaise => Some (set_dirty (inc_post (set_raised true (set_rerr true (set_pc ExcHold q)))), g)
+    | ErrRec, APostHookRaise => Some (set_dirty (inc_post (set_raised true (set_pc ExcHold q))), g)
     | Fin1, AAuditFinal => go Fin2 q g
     | Sv true SRel, AResultSaved => go Fin3 q g
     | Fin3, AInfoRemoved => match infos q with 0 => None | S k => Some (set_infos k (set_pc Fin4 q), g) end
